@@ -1,4 +1,5 @@
 import Dcg.Proofs.Sort
+import Dcg.Proofs.SortPost
 /-
 C11 — no model is lost or duplicated, eager dependencies are defined first, ordering terminates.
 Only property theorems live here; helper lemmas are in Dcg/Proofs/Sort.lean.
@@ -232,5 +233,113 @@ theorem sort_total (ms : List Model) (k : Nat) :
 /-- and a smaller count does make a difference (so the statement above is not trivial) -/
 example : sortDataModels 0 [⟨0, [1], []⟩, ⟨1, [2], []⟩, ⟨2, [], []⟩] ≠
     sortDataModels 3 [⟨0, [1], []⟩, ⟨1, [2], []⟩, ⟨2, [], []⟩] := by decide
+
+/-! ### the interpreter stack: the `RecursionError` escape hatch -/
+
+/-- `sort_data_models` recurses once per worklist pass, and the nested call sits in
+`try: … except RecursionError: pass`. With that escape hatch an interpreter stack on which only
+`stack` further nested calls fit acts exactly like the smaller `recursion_count = min rc stack`:
+the caller of the call that does not fit goes on with the base-class bubble and the cycle stage.
+Every theorem of this file is stated for an ARBITRARY `recursion_count`; through this equation
+they hold at every stack depth (`MAX_RECURSION_COUNT = sys.getrecursionlimit()` never is the
+effective bound: the call does not start on an empty stack). `sortGoS` places the error at the call
+or before the callee's first write; vlib/props/c11.py observes that on the real function. -/
+theorem stack_exhaustion_is_smaller_count (stack rc : Nat) (ms : List Model) :
+    sortDataModelsS true stack rc ms = liftS (sortDataModels (min rc stack) ms) :=
+  sortGoS_hatch stack rc ms [] []
+
+/-- …so Python's `RecursionError` never leaves the function, for any graph, count and depth. -/
+theorem hatch_contains_recursionError (stack rc : Nat) (ms : List Model) :
+    sortDataModelsS true stack rc ms ≠ .error .recursionError := by
+  rw [stack_exhaustion_is_smaller_count]
+  exact liftS_ne_recursion _
+
+/-- The `try/except` is needed: without it a chain of three models given referrer-first, on a
+stack with room for one nested call, ends in `RecursionError` although `recursion_count` is 1000. -/
+theorem without_hatch_recursionError_escapes :
+    sortDataModelsS false 1 1000 [⟨0, [1], []⟩, ⟨1, [2], []⟩, ⟨2, [], []⟩] = .error .recursionError := by
+  decide
+
+/-- with it the same input on the same stack is ordered, the tail treated like a cycle -/
+example : (sortDataModelsS true 1 1000 [⟨0, [1], []⟩, ⟨1, [2], []⟩, ⟨2, [], []⟩]).map
+    (fun o => (o.sorted.map (·.path), o.upd)) = .ok ([2, 1, 0], []) := by decide
+
+example : (sortDataModelsS true 0 1000 [⟨0, [1], []⟩, ⟨1, [2], []⟩, ⟨2, [], []⟩]).map
+    (fun o => (o.sorted.map (·.path), o.upd)) = .ok ([2, 0, 1], [0]) := by decide
+
+/-- every reference of every model is the path of a model of the input (a complete document) -/
+abbrev ClosedRefs (ms : List Model) : Prop := ∀ m ∈ ms, ∀ r ∈ m.refs, r ∈ ms.map (·.path)
+
+/-- "Ordering terminates for every dependency graph" with a result: for distinct paths, acyclic
+inheritance and a complete document the function RETURNS (no error of its own), whatever
+`recursion_count` — in particular for the small counts that an almost exhausted stack amounts to
+(a chain of a thousand models given referrer-first). Reference cycles are allowed. -/
+theorem sort_closed_acyclic_returns (rc : Nat) (ms : List Model) (hd : DistinctPaths ms)
+    (hac : Acyclic ms) (hcl : ClosedRefs ms) : ∃ out, sortDataModels rc ms = .ok out :=
+  sortGo_ok_of_closed rc ms [] [] hd hac (fun m hm r hr => Or.inr (hcl m hm r hr))
+
+/-- …and the same at every stack depth, with the models of the input each exactly once. -/
+theorem sort_returns_at_any_stack_depth (stack rc : Nat) (ms : List Model) (hd : DistinctPaths ms)
+    (hac : Acyclic ms) (hcl : ClosedRefs ms) :
+    ∃ out, sortDataModelsS true stack rc ms = .ok out ∧ out.sorted.Perm ms := by
+  obtain ⟨out, h⟩ := sort_closed_acyclic_returns (min rc stack) ms hd hac hcl
+  refine ⟨out, ?_, sort_perm _ ms out hd h⟩
+  rw [stack_exhaustion_is_smaller_count, h]
+  rfl
+
+/-- non-vacuity: a reference cycle through an inheritance chain is closed and acyclic (in bases) -/
+example : ClosedRefs [⟨2, [1, 0], [1]⟩, ⟨1, [0], [0]⟩, ⟨0, [2], []⟩] ∧
+    Acyclic [⟨2, [1, 0], [1]⟩, ⟨1, [0], [0]⟩, ⟨0, [2], []⟩] :=
+  ⟨by decide, ⟨id, by decide⟩⟩
+
+/-- The hypothesis `ClosedRefs` is needed: a dangling reference ends in the "can not resolve
+classes" error. -/
+theorem sort_dangling_is_reported : sortDataModels 1000 [⟨0, [7], []⟩] = .error .unresolved := by decide
+
+/-! ### `--reuse-model` and the forward-reference footer -/
+
+/-- the pass is given models as the parser built them (no inserted subclass yet) -/
+abbrev Plain (ms : List Rendered) : Prop := ∀ m ∈ ms, m.reuseOf = none
+
+/-- `Parser.__reuse_model` loses and duplicates nothing: position by position the models of the
+module keep their definition (`<path>` or `<path>/reuse`). -/
+theorem reuse_keeps_every_definition (ms : List Rendered) (upd : List RPath) :
+    (reusePass ms upd).1.map (·.path.1) = ms.map (·.path.1) :=
+  reuseGo_paths ms [] upd
+
+/-- Eager dependency first: the base of an inserted `class X(C): pass` is an unreplaced model with
+the same rendering that stands EARLIER in the module. -/
+theorem reuse_base_before_subclass (ms : List Rendered) (upd : List RPath) (hp : Plain ms) :
+    ∀ l1 x l2, (reusePass ms upd).1 = l1 ++ x :: l2 → ∀ c, x.reuseOf = some c →
+      ∃ y ∈ l1, y.path = c ∧ y.reuseOf = none ∧ y.key = x.key := by
+  intro l1 x l2 h c hc
+  rcases reuseGo_base_before ms [] upd l1 x l2 h c hc hp with h1 | h1
+  · cases h1
+  · exact h1
+
+/-- The footer is complete after the pass: every model of the module that was flagged by the
+sorter and every subclass inserted for a flagged model gets its
+`update_forward_refs()` / `model_rebuild()` line (the subclass inherits the unresolved annotations
+of its base). -/
+theorem footer_complete (ms : List Rendered) (upd : List RPath) (hp : Plain ms) :
+    ∀ x ∈ (reusePass ms upd).1, (x.path ∈ upd ∨ ∃ c, x.reuseOf = some c ∧ c ∈ upd) →
+      x.path ∈ emitFooter ms upd := by
+  intro x hx h
+  have hflag : x.path ∈ (reusePass ms upd).2 := by
+    rcases h with h | ⟨c, hc, hcu⟩
+    · exact reuseGo_upd_mono ms [] upd _ h
+    · exact reuseGo_flag ms [] upd hp x hx c hc hcu
+  simp only [emitFooter, footer, List.mem_map, List.mem_filter]
+  exact ⟨x, ⟨hx, by simpa using hflag⟩, rfl⟩
+
+/-- non-vacuity and the reason the list must be read AFTER the pass: `Branch`(0) and `Bough`(1)
+render alike, both point to `Tree`(2) which points back; the sorter flagged 0 and 1. The footer
+names 0 and the inserted subclass `1/reuse`; a footer taken from a copy of the flags made before
+the pass misses the subclass. -/
+theorem stale_footer_incomplete :
+    emitFooter [⟨(0, false), 7, none⟩, ⟨(1, false), 7, none⟩, ⟨(2, false), 8, none⟩] [(0, false), (1, false)] =
+      [(0, false), (1, true)] ∧
+    emitFooterStale [⟨(0, false), 7, none⟩, ⟨(1, false), 7, none⟩, ⟨(2, false), 8, none⟩] [(0, false), (1, false)] =
+      [(0, false)] := by decide
 
 end Dcg.Props.C11
